@@ -291,7 +291,7 @@ impl World {
                 drop(s);
                 wake(&self.sh);
             }
-            "s" => {}
+            "s" | "Z" => {}
             "q" | "b" | "a" | "y" => {
                 let f: Vec<&str> = rest.splitn(3, ':').collect();
                 let rid: usize = f[0].parse().unwrap();
@@ -532,6 +532,8 @@ pub struct SimServer {
     list: Option<Vec<String>>,
     pub locked: bool,
     bin_limit: Option<usize>,
+    /// toggled by the ghost action `Z`: `idle` is answered with an ACK (no permission, a proxy without it)
+    pub no_idle: bool,
 }
 
 /// deterministic picture bytes (contain protocol look-alikes)
@@ -744,6 +746,11 @@ impl SimServer {
             return;
         }
         if l == "idle" {
+            if self.no_idle {
+                // a server (or proxy, or permission set) that refuses `idle`
+                self.ack(4, 0, "idle", "you don't have permission for \"idle\"");
+                return;
+            }
             if self.pend.is_empty() {
                 self.idle = true;
             } else {
@@ -947,6 +954,10 @@ pub fn gen_schedule(r: &mut Rng, g: &GenCfg, steps: usize, prop: &str, backpress
             seg
         }
         let _ = &mut live;
+        if matches!(prop, "C01" | "C05" | "C08") && !backpressure && r.chance(1, 50) {
+            sv.no_idle = true;
+            do_act(&mut w, &mut sv, &mut actions, "Z".to_string()).await;
+        }
         // greeting
         let greeting: Vec<u8> = match r.below(12) {
             0 if g.faults => b"OK MPD \n".to_vec(),
@@ -1024,6 +1035,13 @@ pub fn gen_schedule(r: &mut Rng, g: &GenCfg, steps: usize, prop: &str, backpress
                     do_act(&mut w, &mut sv, &mut actions, "U".to_string()).await;
                     continue;
                 }
+            }
+            // a rare protocol state: the server starts (or stops) refusing `idle` — the ACK it sends belongs to
+            // the idle exchange and to nobody else, and nothing may be written as if an idle were pending
+            if matches!(prop, "C01" | "C05" | "C08") && !backpressure && !faulted && r.chance(1, if sv.no_idle { 8 } else { 90 }) {
+                sv.no_idle = !sv.no_idle;
+                do_act(&mut w, &mut sv, &mut actions, "Z".to_string()).await;
+                continue;
             }
             // the application drops its event receiver (C01, C05, C17: the loop must carry on)
             if g.drop_events && connected && !events_dropped && r.chance(1, 25) {
